@@ -90,6 +90,13 @@ def run(ctx):
             for cheb in (True, False):
                 cases.append({"fn": "gen", "name": "invert", "args": G.enc_args({"kappa": kappa, "epsilon": eps}), "ensure_bounded": rng.random() < 0.5,
                               "return_scale": rng.random() < 0.5, "chebyshev_basis": cheb, "timeout": 300, "expect": "ok"})
+        # 1/x with b = int(kappa^2 log(kappa/eps)) beyond the range the binomial weights can be formed in (b >= 512): the generator may refuse,
+        # but what it returns has to be finite and odd
+        for name, a in (("invert", {"kappa": 12.0, "epsilon": 0.1}), ("invert", {"kappa": 14.0, "epsilon": 0.05}),
+                        ("invrect", {"degree": 6, "delta": 2.0, "kappa": 6, "epsilon": 0.1})):
+            for cheb in (True, False):
+                cases.append({"fn": "gen", "name": name, "args": G.enc_args(a), "ensure_bounded": True, "return_scale": rng.random() < 0.5,
+                              "chebyshev_basis": cheb, "timeout": 300, "expect": "ok_or_raise"})
     impl = run_impl(cases, timeout=3000)
     lines, keep = [], []
     for c, r in zip(cases, impl):
@@ -113,6 +120,9 @@ def run(ctx):
                 ctx.fail(site, c, "a degree of the wrong parity (%s) was accepted instead of refused" % c["args"].get("degree"))
             continue
         if "exc" in r:
+            if c.get("expect") == "ok_or_raise" and r["exc"] not in ("WorkerDied", "CaseTimeout"):
+                ctx.bucket("outside the documented range: refused with " + r["exc"])
+                continue
             ctx.fail(site, c, "raised %s (%s) on a valid argument tuple" % (r["exc"], r.get("msg", "")[:100]))
             continue
         ro = r["ok"]
